@@ -247,8 +247,8 @@ impl Ctx {
 									));
 								}
 							}
-							let _ = vharness::libwallet::api_impl::owner::get_stored_tx(&*b, Some(t.id), None);
-							let _ = vharness::libwallet::api_impl::owner::get_stored_tx(&*b, None, Some(&u));
+							let _ = vharness::libwallet::api_impl::owner::get_stored_tx(&mut *b, Some(t.id), None);
+							let _ = vharness::libwallet::api_impl::owner::get_stored_tx(&mut *b, None, Some(&u));
 						}
 					}
 				}
